@@ -1,7 +1,7 @@
 (* C14 -- Multistage RAM/disk split changes only labels and minimises disk traffic
    Property theorems only: each proof is one application of a lemma proved in Proofs/, followed by Print Assumptions. *)
 From Coq Require Import ZArith List Bool.
-From CS Require TopK AllocProofs SplitProofs.
+From CS Require TopK AllocProofs SplitProofs AllocMin.
 From CS Require Import Actions NAdvance Multistage Exec Sched RunFacts Projections BasicInv MultistageRun AllocTotal TLBridge MixBridge.
 Import ListNotations.
 Open Scope Z_scope.
@@ -55,14 +55,48 @@ Proof. exact (@AllocProofs.alloc_labels_facts). Qed.
 Print Assumptions C14_alloc_labels_facts.
 End M_C14_alloc_labels_facts.
 
-(* PARTIAL: the first k of a descending list maximise the sum over all k-sub-multisets; the glue (weights = access counts of the stream; labels-only simulation) is not proved *)
-Module M_C14_topk_max_partial.
+(* second clause: a checkpoint pushed when the stack holds d entries is written to label d, and is read (Copy / Move) only while on top with d entries below it, from label d -- every state of the extracted machine *)
+Module M_C14_position_storage.
+Import AllocMin.
+Theorem C14_position_storage :
+  forall (f : nat) (c : Multistage.cfg) (s s' : Multistage.st) (a : Actions.action),
+         Multistage.resume f c s = (s', Actions.Yield a) ->
+         match a with
+         | Actions.Forward n0 _ true _ sg =>
+             Multistage.label c (length (Multistage.snaps s)) = Actions.Ok sg /\
+             Multistage.snaps s' = n0 :: Multistage.snaps s
+         | Actions.Forward n0 _ false _ _ => True
+         | Actions.Copy cp sg _ | Actions.Move cp sg _ =>
+             exists rest : list Z,
+               Multistage.snaps s = cp :: rest /\ Multistage.label c (length rest) = Actions.Ok sg
+         | _ => True
+         end.
+Proof. exact (@AllocMin.ms_position_storage). Qed.
+Print Assumptions C14_position_storage.
+End M_C14_position_storage.
+
+(* last clause, the allocation step: for any non-negative per-position weights w, the labelling allocate_snapshots computes (alloc_labels w r) puts the least total weight on DISK among all RAM/DISK labellings with at most r RAM positions *)
+Module M_C14_alloc_min_disk.
+Import AllocMin.
+Theorem C14_alloc_min_disk :
+  forall (w : list Z) (r : nat) (L' : list Actions.storage),
+         Forall (fun x : Z => 0 <= x) w ->
+         length L' = length w ->
+         Forall (fun l : Actions.storage => l = Actions.RAM \/ l = Actions.DISK) L' ->
+         (length (filter (Actions.st_eqb Actions.RAM) L') <= r)%nat ->
+         lsum Actions.DISK (AllocProofs.alloc_labels w r) w <= lsum Actions.DISK L' w.
+Proof. exact (@AllocMin.alloc_min_disk). Qed.
+Print Assumptions C14_alloc_min_disk.
+End M_C14_alloc_min_disk.
+
+(* PARTIAL: that the weights allocate_snapshots feeds into this step are the per-position access counts of the emitted stream (so that the weight on DISK is the number of DISK accesses) is not proved: correspondence (fn.allocate_snapshots) + oracle; (this lemma: the first k of a descending list maximise the sum over all k-sub-multisets) *)
+Module M_C14_weights_are_access_counts_partial.
 Import TopK.
-Theorem C14_topk_max_partial :
+Theorem C14_weights_are_access_counts_partial :
   forall L : list Z,
          Desc L ->
          forall M rest : list Z, Permutation.Permutation L (M ++ rest) -> sum M <= sum (firstn (length M) L).
 Proof. exact (@TopK.topk_max). Qed.
-Print Assumptions C14_topk_max_partial.
-End M_C14_topk_max_partial.
+Print Assumptions C14_weights_are_access_counts_partial.
+End M_C14_weights_are_access_counts_partial.
 
